@@ -214,6 +214,10 @@ async fn workload(mut sim: Sim, o: Opts) -> Result<Value, String> {
         }
         let mut config = base_config();
         config.max_frame_size = limits[i];
+        if o.mode == "hugelimit" {
+            // a maximum far beyond anything sent (and beyond what the 4-byte length prefix can say)
+            config.max_frame_size = Some([usize::MAX, 1usize << 32, 1usize << 40][i % 3]);
+        }
         quic(&mut config).max_idle_timeout_ms = Some(30_000);
         quic(&mut config).keep_alive_interval_ms = Some(5_000);
         quic(&mut config).max_concurrent_bidi_streams = stream_limit;
@@ -250,7 +254,7 @@ async fn workload(mut sim: Sim, o: Opts) -> Result<Value, String> {
             idx as i64,
             "obs.rpc_cfg",
             json!({
-                "max_frame": limits[i],
+                "max_frame": config.max_frame_size,
                 "in_default_ms": config.inbound_request_timeout_ms,
                 "out_default_ms": config.outbound_request_timeout_ms,
                 "stream_limit": stream_limit,
@@ -334,7 +338,14 @@ async fn workload(mut sim: Sim, o: Opts) -> Result<Value, String> {
                     1 => call.abandon_at = Some("rpc.open"),
                     2 => call.abandon_at = Some("rpc.sent"),
                     3 => call.abandon_at = Some("rpc.finish"),
-                    4..=7 => call.abandon_after = Some(rng.gen_range(0..150)),
+                    4..=6 => call.abandon_after = Some(rng.gen_range(0..150)),
+                    7 => {
+                        // abandoned while a multi-megabyte response is on its way back
+                        let d = rng.gen_range(5..60u64);
+                        req.headers_mut().insert("delay-ms".into(), d.to_string());
+                        req.headers_mut().insert("resp-len".into(), rng.gen_range(3_000_000..7_000_000u64).to_string());
+                        call.abandon_after = Some(d + rng.gen_range(2..12));
+                    }
                     _ => call.must_succeed = true,
                 }
                 // a deadline of its own does not keep an abandoned call's handler alive
@@ -388,7 +399,7 @@ async fn workload(mut sim: Sim, o: Opts) -> Result<Value, String> {
                     }
                 }
             }
-            "nolimit" => {
+            "nolimit" | "hugelimit" => {
                 // no max_frame_size configured anywhere: sizes around 8 MiB (tokio-util's default cap)
                 let target = (8usize << 20) + [0usize, 1, 0, 1, 4096][k % 5] - if k % 5 == 2 { 1 } else { 0 };
                 if k % 2 == 0 {
